@@ -20,6 +20,8 @@ pub mod c13;
 pub mod c14;
 pub mod c15;
 pub mod c16;
+pub mod c17;
+pub mod c18;
 pub mod c20;
 
 /// Reference bracket: largest i <= n-2 with x[i] <= q; 0 below the range; n-2 at/above the end.
